@@ -35,18 +35,34 @@ Proof. exact C02.identifier_refines_simple. Qed.
 Check identifier_refines_simple.
 Print Assumptions identifier_refines_simple.
 
-(* conditions: and / or / not / all() / of() / cast comparisons over identifiers *)
-Theorem cond_refines : forall o ic ids raw e (d : doc),
+(* conditions: and / or / not / all() / of() / cast comparisons over identifiers, for every
+   condition the parser can produce.  (Over arbitrary expression trees the statement is
+   false: a negative count in all()/of() cannot be written but can be constructed; see
+   cond_refines_unparsed_refuted.) *)
+Theorem cond_refines : forall o ic ids raw ts e (d : doc),
   (forall i, match lookup i raw, lookup i ids with
              | Some y, Some b => ident_ok o ic y b
              | None, None => True
              | _, _ => False
              end) ->
-  cond_shape e = true -> wf_cond ids e = true ->
+  parse ts = Ok e -> is_solvable e = true -> wf_cond ids e = true ->
   solve_cond o ids e (pure_doc d) = Ok (sem_cond o ic raw e d).
-Proof. exact C02.cond_refines. Qed.
+Proof. exact C02.cond_refines_parsed. Qed.
 Check cond_refines.
 Print Assumptions cond_refines.
+
+Theorem cond_refines_unparsed_refuted :
+  ~ (forall o ic ids raw e (d : doc),
+       (forall i, match lookup i raw, lookup i ids with
+                  | Some y, Some b => ident_ok o ic y b
+                  | None, None => True
+                  | _, _ => False
+                  end) ->
+       cond_shape e = true -> wf_cond ids e = true ->
+       solve_cond o ids e (pure_doc d) = Ok (sem_cond o ic raw e d)).
+Proof. exact C02.cond_refines_refuted. Qed.
+Check cond_refines_unparsed_refuted.
+Print Assumptions cond_refines_unparsed_refuted.
 
 (* what the loader accepts as a condition has that shape *)
 Theorem loaded_condition_shape : forall ts e,
@@ -80,3 +96,10 @@ Example refuted_D27 :
             sem_entry_scalar o0 false KStr [102%N] YNull (fun _ => None) = M.
 Proof. exact C02.refuted_D27. Qed.
 Check refuted_D27.
+Print Assumptions refuted_D27.
+
+(* the unrestricted entry statement is false (D30: str(k) against an integer above i64) *)
+Theorem entry_refines_unrestricted_refuted : ~ entry_refines_stmt.
+Proof. exact C02.entry_refines_false. Qed.
+Check entry_refines_unrestricted_refuted.
+Print Assumptions entry_refines_unrestricted_refuted.
